@@ -326,4 +326,61 @@ theorem edgeSpec_index (items : List (Int × Bool)) : ∀ (init : Bool),
     · simp [h, List.map_map, Function.comp]
     · simp [h, List.map_map, Function.comp]
 
+/-! ### shape of the blocks -/
+
+theorem mixSpec_length (ops : FloatOps σ ρ) (ss : List σ) (errs fbs : List Nat) (last : Nat) (n : Nat)
+    (h1 : ss.length = n) (h2 : errs.length = n) (h3 : fbs.length = n) :
+    (mixSpec ops ss errs fbs last).length = n := by
+  simp [mixSpec, h1, h2, h3]
+
+/-- every channel slice of a block made from a sliced buffer has the block's length -/
+theorem distribute_sliced_shape (ops : FloatOps σ ρ) (zero : σ) (g : Geom) (hg : geomOK g = true) (st : DState σ)
+    (frs : List Frame) (t : Int) (drop : Bool) (st' : DState σ) (blk : Block)
+    (hd : distribute ops zero g st { dc := sliced g frs, t := t, drop := drop } = some (st', blk)) :
+    blk.data.length = g.nchan ∧ ∀ d ∈ blk.data, d.length = blk.nframes := by
+  obtain ⟨st2, blk2, hd2, _, _, hnf, _, hdl, hdata, _⟩ := distribute_sliced ops zero g hg st frs t drop
+  rw [hd] at hd2
+  simp only [Option.some.injEq, Prod.mk.injEq] at hd2
+  obtain ⟨_, rfl⟩ := hd2
+  refine ⟨hdl, ?_⟩
+  intro d hd'
+  obtain ⟨i, hi, rfl⟩ := List.mem_iff_getElem.mp hd'
+  have := hdata i (hdl ▸ hi)
+  rw [List.getD_eq_getElem?_getD, List.getElem?_eq_getElem hi] at this
+  simp only [Option.getD_some] at this
+  rw [this, hnf]
+  by_cases hodd : i % 2 = 1
+  · simp only [hodd, ↓reduceIte]
+    exact mixSpec_length ops _ _ _ _ _ (by simp) (chanTrue_length _ _ _) (chanTrue_length _ _ _)
+  · simp only [hodd, ↓reduceIte]
+    exact chanTrue_length _ _ _
+
+theorem runSteps_shape (ops : FloatOps σ ρ) (zero : σ) (scaleOf : Nat → σ) (g : Geom) (hg : geomOK g = true) :
+    ∀ (steps : List FStep) (st : DState σ),
+    shapeOK g (blocksOf (runSteps ops zero scaleOf g st (steps.map (FStep.toStep g)))) = true := by
+  intro steps
+  induction steps with
+  | nil => intro st; simp [runSteps, blocksOf, shapeOK]
+  | cons s rest ih =>
+    intro st
+    cases s with
+    | mix req =>
+      simp only [List.map_cons, FStep.toStep, runSteps, configureMix_eq]
+      by_cases hok : reqOK g req = true
+      · simp only [hok, ↓reduceIte]
+        simpa [blocksOf] using ih { st with scale := applyReq scaleOf st.scale req }
+      · simp only [hok]
+        simpa [blocksOf] using ih st
+    | buf frs t d =>
+      obtain ⟨st', blk, hd, _⟩ := distribute_sliced ops zero g hg st frs t d
+      have ⟨h1, h2⟩ := distribute_sliced_shape ops zero g hg st frs t d st' blk hd
+      simp only [List.map_cons, FStep.toStep, runSteps, hd]
+      have hb : blocksOf (DRes.blk blk :: runSteps ops zero scaleOf g st' (rest.map (FStep.toStep g))) =
+          blk :: blocksOf (runSteps ops zero scaleOf g st' (rest.map (FStep.toStep g))) := by
+        simp [blocksOf]
+      rw [hb]
+      have := ih st'
+      simp only [shapeOK, List.all_cons, Bool.and_eq_true, beq_iff_eq, List.all_eq_true] at this ⊢
+      exact ⟨⟨h1, h2⟩, this⟩
+
 end DastardV.C04
